@@ -9,7 +9,7 @@
 (* so that every event is judged); the driver requires that the number of  *)
 (* distinct states equals 1 + K + N, i.e. that every event was evaluated.  *)
 (***************************************************************************)
-EXTENDS TomlPrint, SerdeModel, DepthDef, Containers, WalkDef, BuildDef, Json, IOUtils
+EXTENDS EditCheck, SerdeModel, DepthDef, Containers, WalkDef, BuildDef, Json, IOUtils
 
 Ev == ndJsonDeserialize(IOEnv.TRACE)
 N == Len(Ev)
@@ -487,6 +487,43 @@ CheckMacro(i) ==
        IF SameV(p.tree, e.macro, FALSE) THEN TRUE ELSE Report(i, "macro-tree", [expected |-> Plain(p.tree)]) /\ FALSE,
        IF e.parsed_ok /\ SameV(p.tree, e.parsed, FALSE) THEN TRUE ELSE Report(i, "macro-parsed-tree", [ok |-> e.parsed_ok]) /\ FALSE})
 
+\* ---- C08: structural edits through the API, the printed text after every step ----
+FixEditOp(o) == [op |-> o.op, path |-> o.path, key |-> o.key, v |-> o.v, i |-> o.i]
+RECURSIVE EditSteps(_, _, _, _)
+\* prev = text before step j; returns TRUE when every remaining step conforms
+EditSteps(i, steps, j, prev) ==
+  IF j > Len(steps) THEN TRUE
+  ELSE LET st == steps[j]
+           o == FixEditOp(st)
+       IN IF st.res = "skip" THEN TRUE          \* the API has no such operation at this position (e.g. push on a table)
+          ELSE IF st.res # "ok" THEN Report(i, "edit-panic", [step |-> j, op |-> o.op]) /\ FALSE
+          ELSE LET pp == ParseDocument(prev)
+                   pn == ParseDocument(st.text)
+               IN IF pp.res # "ok" THEN TRUE
+                  ELSE IF ~Enabled(Plain(pp.tree), o) THEN Report(i, "edit-not-enabled", [step |-> j, op |-> o.op]) /\ FALSE
+                  ELSE IF pn.res # "ok" THEN Report(i, "edit-invalid", [step |-> j, op |-> o.op, text |-> st.text, why |-> pn.why, at |-> pn.at]) /\ FALSE
+                  ELSE LET before == Plain(pp.tree)
+                           after == Plain(pn.tree)
+                           pieces == Pieces(prev, pp, o)
+                           miss == FirstMissing(st.text, pieces, 1, 1, o.op # "sort_values")
+                       IN /\ AllTrue({
+                               IF SameContent(ApplyOp(before, o), after) THEN TRUE
+                               \* known finding F20: a dotted-key table that loses its last key vanishes from the printed document
+                               ELSE IF o.op = "remove" /\ GetAt(ApplyOp(before, o), o.path).v = <<>>
+                                       /\ SameContent(DropEmptyTables(ApplyOp(before, o)), DropEmptyTables(after))
+                                    THEN Report(i, "edit-content-emptied-table-vanishes", [step |-> j, op |-> o.op, path |-> o.path, key |-> o.key]) /\ FALSE
+                               ELSE Report(i, "edit-content", [step |-> j, op |-> o.op, path |-> o.path, key |-> o.key, text |-> st.text]) /\ FALSE,
+                               \* a replaced key whose value changes between table and value has to move (values precede tables)
+                               IF o.op = "sort_values" \/ SurvivorsOrdered(before, after)
+                                  \/ (o.op = "insert" /\ GetAt(before, Append(o.path, o.key)).k \in {"t", "a"}
+                                      /\ SurvivorsOrdered(ApplyOp(before, [o EXCEPT !.op = "remove"]), ApplyOp(after, [o EXCEPT !.op = "remove"])))
+                               THEN TRUE
+                               ELSE Report(i, "edit-order", [step |-> j, op |-> o.op, path |-> o.path, key |-> o.key, text |-> st.text]) /\ FALSE,
+                               IF miss = 0 THEN TRUE
+                               ELSE Report(i, "edit-verbatim", [step |-> j, op |-> o.op, path |-> o.path, key |-> o.key, lost |-> pieces[miss], text |-> st.text]) /\ FALSE})
+                          /\ EditSteps(i, steps, j + 1, st.text)
+CheckEdit(i) == EditSteps(i, Ev[i].steps, 1, Ev[i].start)
+
 U1Note(i) == Ev[i].ev = "parse" /\ ParseDocument(Ev[i].text).res = "u1" => PrintT(ToJson([u1 |-> i]))
 
 CheckEvent(i) ==
@@ -508,6 +545,7 @@ CheckEvent(i) ==
     [] Ev[i].ev = "visit" -> CheckVisit(i)
     [] Ev[i].ev = "build" -> CheckBuild(i)
     [] Ev[i].ev = "macro" -> CheckMacro(i)
+    [] Ev[i].ev = "edit" -> CheckEdit(i)
     [] OTHER -> Report(i, "unknown-event", Ev[i].ev) /\ FALSE
 
 Init == lvl = 0 /\ idx = 0
